@@ -66,3 +66,12 @@ META["C06"] = dict(technique=_LT_TECH, note=_LT_NOTE,
     text="ReportedIsLive: after every event of every history (duplicate reports, same-uuid replacement, uuid reuse across peers, late and repeated "
          "losses) GetPeerLinks and the values of all link requests equal the abstract set 'established and not lost / not replaced'; every link that "
          "left that set had Close called.")
+REGISTRY["C36"] = ("access", "run")
+META["C36"] = dict(
+    technique="TLC exhaustive model checking of Access.tla; every TLC-enumerated callback history replayed on the real LookupRpcService (big-step and burst); recorded response streams validated by TLC (AccessMon.tla: observer + strict)",
+    text="Access.tla (callbacks feeding a send queue flushed by the loop) is model-checked for AvailAlternates / IdleAlternates / Faithful with 3 provider ids. "
+         "Every history of added / removed (also of ids never added) / idle callbacks up to the length bound is replayed on the real server with a fake bus; "
+         "TLC checks on the observed stream that exists/removed strictly alternate starting with exists, idle reports alternate, and the last report agrees "
+         "with the providers present at each quiescent point; component IDs round-trip for a set of request strings.",
+    note="The bus and the directive instance are harness fakes; resolver errors (the error-return path of the loop) are not exercised.",
+)
